@@ -30,13 +30,15 @@ REAL = ["mysensors.transport", "mysensors.task (SyncTasks._poll_queue)", "mysens
         "serial.threaded.ReaderThread", "handlers for the commands"]
 STUBS = ["thread scheduling (baton + sys.settrace line pre-emption)", "threading.Lock/Event (SimLock/SimEvent)", "serial port / socket / select", "clock"]
 ASSUMPTIONS = ["pre-emption at Python source lines of the listed functions and at every blocking shim call; C-level sections are atomic (GIL)",
-               "no write faults are injected here (a write error legitimately produces a partial write)"]
+               "the only write fault injected is the one of event both_errors (the command under that write is legitimately lost)"]
 REQUIRED_PROBES = ["teardown_while_queued", "preempted_runs", "probe_answered"]
 
 WINDOW_NAMES = {"send", "write", "close", "stop", "run", "connection_lost", "_connection_lost", "connection_made", "_connection_made",
-                "disconnect", "sync_connect", "_poll_queue", "add_job", "run_job", "connect", "_check_socket", "handle_line", "data_received"}
-WINDOW_FILES = ("transport.py", "task.py", "threaded.py", "gateway_tcp.py", "gateway_serial.py")
-EVENTS_SERIAL = ["read_error", "disconnect", "stop", "read_error_reconnect", "none"]
+                "disconnect", "sync_connect", "_poll_queue", "add_job", "run_job", "connect", "_check_socket", "handle_line", "data_received",
+                # where the pump drains a sleeping node's queue and where controller threads append to it
+                "handle_smartsleep", "_route_message", "is_sensor", "_connect_once"}
+WINDOW_FILES = ("transport.py", "task.py", "threaded.py", "gateway_tcp.py", "gateway_serial.py", "handler.py", "__init__.py")
+EVENTS_SERIAL = ["read_error", "disconnect", "stop", "read_error_reconnect", "both_errors", "none"]
 EVENTS_TCP = EVENTS_SERIAL + ["peer_reset", "peer_eof"]
 
 
@@ -74,9 +76,12 @@ def gen(rng, tier, index):
             sched["horizon"] = rng.choice([30, 80, 200, 500])
     else:
         sched["p"] = rng.choice([0.01, 0.03, 0.08, 0.2])
+    if rng.random() < 0.5:
+        sched["sleep_slack"] = 0.02  # sleeping threads may wake together with something else due within 20 ms
     events = EVENTS_TCP if flavour == "tcp" else EVENTS_SERIAL
-    return {"cfg": {"flavour": flavour, "version": rng.choice(["1.4", "2.0", "2.2"]) if scenario != "S" else rng.choice(["2.0", "2.1", "2.2"]), "scenario": scenario,
-                    "event": rng.choice(events) if scenario == "A" else "none",
+    event = rng.choice(events) if scenario == "A" else "none"
+    return {"cfg": {"flavour": flavour, "slow_lost_callback": rng.choice([2.5, "join", "join"]) if event in ("both_errors", "read_error_reconnect") and rng.random() < 0.6 else 0, "version": rng.choice(["1.4", "2.0", "2.2"]) if scenario != "S" else rng.choice(["2.0", "2.1", "2.2"]), "scenario": scenario,
+                    "event": event,
                     # F(lood): the pump is held up in one slow write while the producers queue hundreds of commands
                     "n_cmds": rng.randint(1, 6) if scenario != "F" else rng.choice([40, 90, 130]),
                     "producers": rng.randint(2, 4) if scenario in ("B", "S") else (3 if scenario == "F" else 1), "gaps": [rng.choice([0, 0, 0.005, 0.02, 0.03]) for _ in range(8)],
@@ -115,9 +120,18 @@ def run(case):
             conn0 = world.device.current()
             tags = []
 
+            held_calls = []
+
             def producer(pid):
                 for i in range(cfg["n_cmds"]):
                     tag = f"p{pid}c{i}"
+                    if cfg["scenario"] == "S" and (pid + i) % 2 == 0:
+                        # a command for the SLEEPING node (a child it never presented): the presentation request it
+                        # provokes is withheld in that node's queue, which the pump drains at every wake-up
+                        gateway.set_child_value(3, 77, 24, tag)
+                        held_calls.append(tag)
+                        kernel.TimeShim.sleep(cfg["gaps"][(pid + i) % len(cfg["gaps"])])
+                        continue
                     tags.append(tag)
                     gateway.set_child_value(1, 1, 24, tag)
                     if cfg["scenario"] != "F" or i % 16 == 15:
@@ -128,8 +142,22 @@ def run(case):
                 event = cfg["event"]
                 if rec:
                     probes["teardown_while_queued"] = 1
-                if event in ("read_error", "read_error_reconnect"):
+                if event in ("read_error", "read_error_reconnect", "both_errors"):
                     exc = _real_serial.SerialException("device gone") if cfg["flavour"] == "serial" else OSError(5, "Input/output error")
+                    if event == "both_errors":
+                        # the loss is noticed by the pump (its next write fails) AND, at that very moment, by the reader
+                        # (read error): both run the loss handling and both ask for a reconnect
+                        conn0.fail_write(_real_serial.SerialException("write failed") if cfg["flavour"] == "serial" else BrokenPipeError(32, "Broken pipe"))
+                        fired = []
+
+                        def break_link(conn, _data):
+                            if conn is conn0 and conn.write_exc is not None and not fired:
+                                fired.append(1)
+                                probes["write_and_read_error_together"] = 1
+                                conn.fail_read(exc)
+
+                        world.device.write_hook = break_link
+                        return
                     conn0.fail_read(exc)
                 elif event == "disconnect":
                     gateway.tasks.transport.disconnect()
@@ -144,6 +172,34 @@ def run(case):
 
             if cfg["event"] == "read_error":
                 world.device.connect_plan = ["fail", "fail", "ok"]
+            if cfg.get("slow_lost_callback"):
+                # the application's on_conn_lost callback is slow (longer than the 2 s the closing side waits for the
+                # reader thread): the loss handling of reader and pump then really overlap
+                def slow_lost(_kind, _exc):
+                    probes["slow_lost_callback"] = 1
+                    if cfg["slow_lost_callback"] != "join":
+                        sim.sleep(cfg["slow_lost_callback"])
+                        return
+                    # ... exactly as long as the closing side is prepared to wait for this (reader) thread: the callback
+                    # returns at the instant the pump's join(2) gives up, so both go on to ask for a reconnect together
+                    t0, saw_join = sim.now, False
+                    while sim.now - t0 < 4.0:
+                        pump = next((t for t in sim.threads if t.role == "_poll_queue"), None)
+                        joining = pump is not None and pump.state == kernel.BLOCKED and pump.waiting and pump.waiting[0] == "join"
+                        if joining and not saw_join:
+                            saw_join = True
+                            # (PCT runs) count the change points from the instant that join gives up
+                            when = next((w for w, _s, tok, _f in sim.heap if tok is pump.token), None)
+                            if when is not None:
+                                sim.call_at(when, lambda: sim.pct_arm(horizon=12))
+                        elif joining:
+                            pass
+                        elif saw_join:
+                            probes["lost_callback_returned_with_join_timeout"] = 1
+                            break
+                        sim.sleep(0.005)
+
+                world.conn_hook = slow_lost
             if cfg["scenario"] == "F":
                 stalled = []
 
@@ -161,13 +217,54 @@ def run(case):
             if cfg["scenario"] == "A":
                 sim.spawn(teardown, role="teardown")
             if wake is not None:
-                for i in range(4):
+                # a controller thread that is released at the very instant the pump starts on a wake-up of node 3 and
+                # then queues a command for that (sleeping) node: the pump is draining the node's queue meanwhile
+                wake_seen = kernel.SimEvent()
+                racing = {"on": True, "n": 0}
+
+                def on_logic(line):
+                    if racing["on"] and str(line).startswith("3;255;3;0;"):
+                        wake_seen.set()
+
+                def racer():
+                    while racing["on"]:
+                        if not wake_seen.wait(0.5):
+                            continue
+                        wake_seen.clear()
+                        if not racing["on"]:
+                            break
+                        racing["n"] += 1
+                        tag = f"race{racing['n']}"
+                        gateway.set_child_value(3, 77, 24, tag)
+                        held_calls.append(tag)
+                        probes["command_for_sleeping_node_during_its_wakeup"] = 1
+
+                world.logic_hook = on_logic
+                sim.spawn(racer, role="controller")
+                for i in range(6):
                     sim.sleep(cfg["gaps"][i % len(cfg["gaps"])] or 0.013)
+                    sim.pct_arm()  # (PCT runs: the change points are counted anew from every wake-up)
                     world.device.inject(("3;1;2;0;24;\n" + wake).encode())  # a value request (held) and the next wake-up
                     probes["wakeups_during_production"] = probes.get("wakeups_during_production", 0) + 1
-            sim.sleep(1.0 if cfg["scenario"] != "F" else 4.0)
+            sim.sleep((1.0 if cfg["scenario"] != "F" else 4.0) + (7.0 if cfg.get("slow_lost_callback") else 0))
+            for _ in range(120):
+                # (slow sends and coalesced sleeps can make the pump take longer than that to drain a long queue)
+                if not gateway.tasks.queue:
+                    break
+                sim.sleep(0.5)
             world.device.write_hook = None
+            if cfg["event"] == "both_errors" and not probes.get("write_and_read_error_together"):
+                conn0.write_exc = None  # nothing was written after the event: the armed fault is withdrawn
+                probes["both_errors_not_fired"] = 1
+            if wake is not None:
+                racing["on"] = False
+                world.logic_hook = None
+                sim.sleep(0.6)
             world.settle()
+            if wake is not None:
+                world.device.inject(wake.encode())  # one last wake-up: everything withheld for node 3 goes out now
+                world.settle()
+                world.advance(0.1)
             # ---- observations -------------------------------------------------------------
             for role, exc, trace in sim.died:
                 if role == "_poll_queue":
@@ -186,7 +283,7 @@ def run(case):
                 if text.startswith("0;255;3;0;2;"):
                     continue
                 if not (text.endswith("\n") and text.count("\n") == 1):
-                    if cfg["event"] in ("read_error", "read_error_reconnect", "peer_reset", "peer_eof") and conn_id == conn0.conn_id:
+                    if cfg["event"] in ("read_error", "read_error_reconnect", "both_errors", "peer_reset", "peer_eof") and conn_id == conn0.conn_id:
                         # the link itself failed under the write: a torn command on the dead link is what a
                         # write error legitimately leaves behind
                         probes["partial_write_on_failed_link"] = 1
@@ -212,6 +309,13 @@ def run(case):
                 if line:
                     appended.append(line[:-1].split(";", 5)[-1])
             appended = [a for a in appended if a in set(tags)]
+            if cfg["scenario"] == "S" and not violations:
+                pres = sum(1 for w in writes if w[4] == b"3;255;3;0;19;\n")
+                if pres != len(held_calls):
+                    violations.append(_vio("withheld-command-count", {"calls_for_sleeping_node": len(held_calls), "presentation_requests_written": pres},
+                                           sign="fewer" if pres < len(held_calls) else "more"))
+                elif held_calls:
+                    probes["withheld_commands_all_sent_once"] = 1
             if cfg["scenario"] in ("B", "S", "F") and not violations:
                 missing = [t for t in tags if seen[t] == 0]
                 if missing:
@@ -222,7 +326,7 @@ def run(case):
             if dropped:
                 probes["commands_dropped"] = len(dropped)
             # ---- liveness probe on the surviving link ----------------------------------------
-            if cfg["event"] in ("read_error", "read_error_reconnect", "peer_reset", "none") and not violations:
+            if cfg["event"] in ("read_error", "read_error_reconnect", "both_errors", "peer_reset", "none") and not violations:
                 world.advance(25.0 if cfg["event"] == "read_error" else 0.5)
                 if cfg["event"] == "peer_reset" or cfg["flavour"] == "tcp":
                     world.advance(0.5)
